@@ -207,3 +207,44 @@ UNITS['anydata'] = dict(
       (r'^std::size_t$|^size_t$', 'builtin', 'unsigned long'),
     ],
 )
+
+UNITS['heterselect'] = dict(tu='inst/heterselect.cpp', filter='Facts', std='c++11', facts_only=True)
+
+HQB = 'HeterEventQueueBase<int, HeterTuple<void (VArg), void (WArg)>, Pol>'
+UNITS['hqueue'] = dict(
+    tu='inst/hqueue.cpp', filter=['HeterEventQueueBase', 'internal_::BufferedUnion', 'internal_::CounterGuard', 'FindPrototypeByCallable', 'FindPrototypeByArgsFrom'], std='c++11',
+    root=('ClassTemplateSpecializationDecl', 'HeterEventQueueBase'), root_q=HQB,
+    extra_roots=[('ClassTemplateSpecializationDecl', 'BufferedUnion', 'BufferedUnion<24>'),
+                 ('ClassTemplateSpecializationDecl', 'CounterGuard', 'CounterGuard<std::atomic<int>>')],
+    names={HQB: 'HQ', HQB + '::QueuedItemBase': 'ItemBase', HQB + '::QueuedItem<std::tuple<VArg>>': 'ItemV', HQB + '::QueuedItem<std::tuple<WArg>>': 'ItemW',
+           'BufferedUnion<24>': 'Slot', 'CounterGuard<std::atomic<int>>': 'CounterGuard', 'VArg': 'VArg', 'WArg': 'WArg', 'PredV': 'PredV', 'PredW': 'PredW'},
+    value_records=['VArg', 'WArg', 'TupV', 'TupW'],
+    opaque_records=['VArg', 'WArg', 'PredV', 'PredW'],
+    ghost_sig=[],
+    skip_functions=['getEvent'],
+    env_calls={'getEvent': 'Pol_getEvent'},
+    tuple_ctor=['TupV', 'TupW'],
+    exc_edges=False,
+    type_resubst=[(r'QueuedItem<typename FindPrototypeByArgs<.*, VArg &>::ArgsTuple>', HQB + '::QueuedItem<std::tuple<VArg>>'),
+                  (r'QueuedItem<typename FindPrototypeByArgs<.*, WArg &>::ArgsTuple>', HQB + '::QueuedItem<std::tuple<WArg>>')],
+    fn_rename=[(r'^HQ_doProcessIf__eventpp_internal__FindPrototypeByCallable_eventpp_HeterTuple_void_VArg_void_WArg_(Pred[VW])_Pred[VW]$', r'HQ_doProcessIf__P0_\1'),
+               (r'^HQ_doProcessIf__eventpp_internal__FindPrototypeByCallableFromIndex_(\d)_eventpp_HeterTuple_void_VArg_void_WArg_(Pred[VW])_eventpp_internal__FindPrototypeDefaultArgTransformer_2_Pred[VW]$', r'HQ_doProcessIf__P\1_\2'),
+               (r'^HQ_doProcessIf__eventpp_internal__FindPrototypeByCallableFromIndex_\d_eventpp_HeterTuple_.*_(Pred[VW])$', r'HQ_doProcessIf__next_\1'),
+               (r'^HQ_doEnqueue__eventpp_ArgumentPassingExcludeEvent_int', 'HQ_doEnqueue'),
+               (r'^HQ_(doDispatchItem|doDispatchQueuedItem)__eventpp_internal__FindPrototypeByArgs_eventpp_HeterTuple_void_VArg_void_WArg_([VW])Arg.*$', r'HQ_\1__\2'), (r'^HQ_enqueue__int_', 'HQ_enqueue_')],
+    type_rules=[
+      (r'__alloc_traits<.*BufferedUnion<.*>::value_type$', 'record', 'Slot'),
+      (r'^std::condition_variable$', 'condvar', 'CondVar'),
+      (r'^std::(__cxx11::)?list<', 'list', 'WList'),
+      (r'^std::_List_(const_)?iterator<', 'listit', 'WIt'),
+      (r'^std::tuple<VArg>$', 'record', 'TupV'),
+      (r'^std::tuple<WArg>$', 'record', 'TupW'),
+      (r'^std::array<char, ', 'rawbuf', 'RawBuf'),
+      (r'^void \(\*(const)?\)\(void \*\)$|DtorFunc$', 'fnptr', 'DtorTag'),
+      (r'ItemDispatcher$|^void \(\*(const)?\)\(const HeterEventQueueBase', 'fnptr', 'DispTag'),
+      (r'IndexSequence<', 'empty', 'int'),
+      (r'^std::chrono::duration<', 'opaque', 'Duration'),
+      (r'^std::unique_lock<', 'unique_lock', 'UniqueLock'),
+      (r'^HeterEventDispatcherBase<', 'record', 'DispatcherBase'),
+    ],
+)
